@@ -45,6 +45,8 @@ def mesh_configs(quick):
         dict(kind="bar", mel=1.0, smooth=0), dict(kind="bar_hole", mel=0.8, smooth=3), dict(kind="ring", mel=1.0, smooth=0),
         dict(kind="union", mel=1.0, smooth=0), dict(kind="cross4", mel=1.2, smooth=10),
     ]
+    # a non-convex hole whose vertex mean lies outside it (the mesher needs a point INSIDE each hole)
+    c += [dict(kind="Lhole", mel=0.9, smooth=0)]
     # geometry away from the origin; meshes made without refinement (outline point density only), with min_points only
     c += [dict(kind="bar_hole", mel=0.0, smooth=0, offset=(20.0, 12.0)), dict(kind="ring", mel=1.0, smooth=2, offset=(0.4, -0.3)),
           dict(kind="bar", mel=None, smooth=0, min_points=150, offset=(-7.0, 3.0))]
